@@ -42,7 +42,8 @@ import (
 
 type c24Req struct {
 	Method string // Search | StreamSearch | List
-	Class  string // mutation class (stable; used in signatures and for skipping)
+	Base   string // what is unusual about the request (stable; used in signatures and for skipping)
+	Class  string // Base plus position (@And, …) and the options class
 	Msg    proto.Message
 }
 
@@ -50,6 +51,7 @@ type c24Logged struct {
 	Batch   int             `json:"batch"`
 	I       int             `json:"i"`
 	Method  string          `json:"method"`
+	Base    string          `json:"base"`
 	Class   string          `json:"class"`
 	Request json.RawMessage `json:"request_protojson"`
 }
@@ -107,8 +109,9 @@ func qOf(x any) *v1.Q {
 }
 
 type c24Mut struct {
-	class string
+	class string // base class
 	q     *v1.Q
+	pos   string // "" at the root, "@And" … below a well-formed parent
 }
 
 func bitmapBytes(ids ...uint32) []byte {
@@ -121,7 +124,7 @@ func bitmapBytes(ids ...uint32) []byte {
 func c24QueryMutants(r *rand.Rand) []c24Mut {
 	ok := func() *v1.Q { return qOf(&v1.Substring{Pattern: "a", Content: true}) }
 	var l []c24Mut
-	add := func(class string, q *v1.Q) { l = append(l, c24Mut{class, q}) }
+	add := func(class string, q *v1.Q) { l = append(l, c24Mut{class, q, ""}) }
 
 	add("query-unset", nil)
 	add("query-oneof-unset", &v1.Q{})
@@ -238,15 +241,15 @@ func c24Wrap(r *rand.Rand, m c24Mut) c24Mut {
 	}
 	switch r.IntN(5) {
 	case 0:
-		return c24Mut{m.class + "@And", qOf(&v1.And{Children: []*v1.Q{ok, m.q}})}
+		return c24Mut{m.class, qOf(&v1.And{Children: []*v1.Q{ok, m.q}}), "@And"}
 	case 1:
-		return c24Mut{m.class + "@Or", qOf(&v1.Or{Children: []*v1.Q{m.q, ok}})}
+		return c24Mut{m.class, qOf(&v1.Or{Children: []*v1.Q{m.q, ok}}), "@Or"}
 	case 2:
-		return c24Mut{m.class + "@Not", qOf(&v1.Not{Child: m.q})}
+		return c24Mut{m.class, qOf(&v1.Not{Child: m.q}), "@Not"}
 	case 3:
-		return c24Mut{m.class + "@Type", qOf(&v1.Type{Type: v1.Type_KIND_FILE_NAME, Child: m.q})}
+		return c24Mut{m.class, qOf(&v1.Type{Type: v1.Type_KIND_FILE_NAME, Child: m.q}), "@Type"}
 	}
-	return c24Mut{m.class + "@Boost", qOf(&v1.Boost{Boost: 1.5, Child: m.q})}
+	return c24Mut{m.class, qOf(&v1.Boost{Boost: 1.5, Child: m.q}), "@Boost"}
 }
 
 func c24Opts(r *rand.Rand) (string, *v1.SearchOptions) {
@@ -348,16 +351,22 @@ func c24Requests(seed uint64, batch, size int, valid []*v1.Q) []c24Req {
 	muts := c24QueryMutants(r)
 	var out []c24Req
 	build := func(method string, m c24Mut) c24Req {
+		base := func(oc string) string {
+			if m.class == "valid-query" {
+				return m.class + "+" + oc // the options are what is unusual, if anything
+			}
+			return m.class
+		}
 		switch method {
 		case "List":
 			oc, o := c24ListOpts(r)
-			return c24Req{method, m.class + "+" + oc, &v1.ListRequest{Query: m.q, Opts: o}}
+			return c24Req{method, base(oc), m.class + m.pos + "+" + oc, &v1.ListRequest{Query: m.q, Opts: o}}
 		case "StreamSearch":
 			oc, o := c24Opts(r)
-			return c24Req{method, m.class + "+" + oc, &v1.StreamSearchRequest{Request: &v1.SearchRequest{Query: m.q, Opts: o}}}
+			return c24Req{method, base(oc), m.class + m.pos + "+" + oc, &v1.StreamSearchRequest{Request: &v1.SearchRequest{Query: m.q, Opts: o}}}
 		}
 		oc, o := c24Opts(r)
-		return c24Req{method, m.class + "+" + oc, &v1.SearchRequest{Query: m.q, Opts: o}}
+		return c24Req{method, base(oc), m.class + m.pos + "+" + oc, &v1.SearchRequest{Query: m.q, Opts: o}}
 	}
 	methods := []string{"Search", "StreamSearch", "List"}
 	if batch == 0 {
@@ -370,16 +379,16 @@ func c24Requests(seed uint64, batch, size int, valid []*v1.Q) []c24Req {
 		}
 		okq := func() *v1.Q { return qOf(&v1.Substring{Pattern: "a", Content: true}) }
 		out = append(out,
-			c24Req{"Search", "request-empty", &v1.SearchRequest{}},
-			c24Req{"Search", "query-only", &v1.SearchRequest{Query: okq()}},
-			c24Req{"Search", "opts-only", &v1.SearchRequest{Opts: &v1.SearchOptions{}}},
-			c24Req{"StreamSearch", "request-unset", &v1.StreamSearchRequest{}},
-			c24Req{"StreamSearch", "request-empty", &v1.StreamSearchRequest{Request: &v1.SearchRequest{}}},
-			c24Req{"StreamSearch", "query-only", &v1.StreamSearchRequest{Request: &v1.SearchRequest{Query: okq()}}},
-			c24Req{"StreamSearch", "opts-only", &v1.StreamSearchRequest{Request: &v1.SearchRequest{Opts: &v1.SearchOptions{ChunkMatches: true}}}},
-			c24Req{"List", "request-empty", &v1.ListRequest{}},
-			c24Req{"List", "query-only", &v1.ListRequest{Query: qOf(true)}},
-			c24Req{"List", "opts-only", &v1.ListRequest{Opts: &v1.ListOptions{}}},
+			c24Req{"Search", "request-empty", "request-empty", &v1.SearchRequest{}},
+			c24Req{"Search", "opts-unset", "query-only", &v1.SearchRequest{Query: okq()}},
+			c24Req{"Search", "query-unset", "opts-only", &v1.SearchRequest{Opts: &v1.SearchOptions{}}},
+			c24Req{"StreamSearch", "request-unset", "request-unset", &v1.StreamSearchRequest{}},
+			c24Req{"StreamSearch", "request-empty", "request-empty", &v1.StreamSearchRequest{Request: &v1.SearchRequest{}}},
+			c24Req{"StreamSearch", "opts-unset", "query-only", &v1.StreamSearchRequest{Request: &v1.SearchRequest{Query: okq()}}},
+			c24Req{"StreamSearch", "query-unset", "opts-only", &v1.StreamSearchRequest{Request: &v1.SearchRequest{Opts: &v1.SearchOptions{ChunkMatches: true}}}},
+			c24Req{"List", "request-empty", "request-empty", &v1.ListRequest{}},
+			c24Req{"List", "opts-unset", "query-only", &v1.ListRequest{Query: qOf(true)}},
+			c24Req{"List", "query-unset", "opts-only", &v1.ListRequest{Opts: &v1.ListOptions{}}},
 		)
 	}
 	for len(out) < size {
@@ -387,7 +396,7 @@ func c24Requests(seed uint64, batch, size int, valid []*v1.Q) []c24Req {
 		switch r.IntN(10) {
 		case 0, 1, 2, 3: // a valid generated query, options varied
 			q := valid[r.IntN(len(valid))]
-			out = append(out, build(method, c24Mut{"valid-query", q}))
+			out = append(out, build(method, c24Mut{"valid-query", q, ""}))
 		case 4, 5: // mutant at the root
 			out = append(out, build(method, muts[r.IntN(len(muts))]))
 		default: // mutant below a well-formed parent
@@ -527,9 +536,9 @@ func c24Child(rec *kit.Rec) {
 	for _, s := range a.Skip {
 		skip[s] = true
 	}
-	probeS := c24Req{"Search", "probe", &v1.SearchRequest{Query: qOf(&v1.Substring{Pattern: "a", Content: true}), Opts: &v1.SearchOptions{}}}
-	probeL := c24Req{"List", "probe", &v1.ListRequest{Query: qOf(true), Opts: &v1.ListOptions{}}}
-	kit.LogCase(c24Logged{a.Batch, -1, "Search", "initial-probe", nil})
+	probeS := c24Req{"Search", "probe", "probe", &v1.SearchRequest{Query: qOf(&v1.Substring{Pattern: "a", Content: true}), Opts: &v1.SearchOptions{}}}
+	probeL := c24Req{"List", "probe", "probe", &v1.ListRequest{Query: qOf(true), Opts: &v1.ListOptions{}}}
+	kit.LogCase(c24Logged{a.Batch, -1, "Search", "probe", "initial-probe", nil})
 	if code, _, msg := rig.call(probeS); code != codes.OK {
 		rec.Violation("harness/initial-probe", fmt.Sprintf("%v %s", code, msg), nil)
 		return
@@ -537,7 +546,7 @@ func c24Child(rec *kit.Rec) {
 	reqs := c24Requests(rec.Seed, a.Batch, a.Size, c24ValidQueries(rec.Seed, rig.corpus, rig.gen))
 	for i := a.Start; i < len(reqs); i++ {
 		q := reqs[i]
-		if skip[q.Method+"|"+q.Class] {
+		if skip[q.Method+"|"+q.Base] {
 			rec.Count("requests_skipped_class_already_reported", 1)
 			continue
 		}
@@ -546,14 +555,14 @@ func c24Child(rec *kit.Rec) {
 			js, _ = json.Marshal(fmt.Sprint(q.Msg))
 		}
 		wire, _ := mustMarshal(q.Msg)
-		kit.LogCase(c24Logged{a.Batch, i, q.Method, q.Class, js})
+		kit.LogCase(c24Logged{a.Batch, i, q.Method, q.Base, q.Class, js})
 		code, n, msg := rig.call(q)
 		rec.Count("requests_"+q.Method, 1)
 		rec.Count("answers_"+code.String(), 1)
 		rec.Max("max_stream_messages", int64(n))
-		rec.Seen("request_classes", q.Class)
+		rec.Seen("request_classes", q.Base)
 		rec.Seen("status_codes", code.String())
-		nontrivial := !strings.HasPrefix(q.Class, "valid-query+opts-subset") && !strings.HasPrefix(q.Class, "valid-query+opts-repos")
+		nontrivial := q.Base != "valid-query+opts-subset" && !strings.HasPrefix(q.Base, "valid-query+opts-repos")
 		rec.Case(q.Method+"|"+q.Class+"|"+string(wire), nontrivial, func() any {
 			return map[string]any{"method": q.Method, "class": q.Class, "request": json.RawMessage(clip(string(js), 500)), "answer": code.String(), "message": clip(msg, 200), "messages": n}
 		})
@@ -565,9 +574,9 @@ func c24Child(rec *kit.Rec) {
 		if i%8 == 7 {
 			probe = probeL
 		}
-		kit.LogCase(c24Logged{a.Batch, i, q.Method, q.Class + " (probe after it)", js})
+		kit.LogCase(c24Logged{a.Batch, i, q.Method, q.Base, q.Class + " (probe after it)", js})
 		if pc, _, pm := rig.call(probe); pc != codes.OK {
-			rec.Violation("probe-failed/"+q.Class, fmt.Sprintf("after %s request of class %s (answered %v) the well-formed probe request failed: %v %s", q.Method, q.Class, code, pc, pm),
+			rec.Violation("probe-failed/"+q.Base, fmt.Sprintf("after %s request of class %s (answered %v) the well-formed probe request failed: %v %s", q.Method, q.Class, code, pc, pm),
 				map[string]any{"method": q.Method, "class": q.Class, "request_protojson": json.RawMessage(js)})
 		}
 		rec.Count("probes_ok", 1)
@@ -582,6 +591,8 @@ func c24Totality(rec *kit.Rec) {
 	size := rec.N(1100, 5000)
 	env := []string{"SRC_LOG_LEVEL=error", "SRC_LOG_FORMAT=logfmt", "GOMEMLIMIT=6GiB"}
 	skip := map[string]bool{}
+	perBase := map[string]int{}
+	deaths, maxDeaths := 0, 300
 	skipList := func() []string {
 		l := make([]string, 0, len(skip))
 		for k := range skip {
@@ -608,31 +619,29 @@ func c24Totality(rec *kit.Rec) {
 				break
 			}
 			rec.Count("server_deaths", 1)
+			deaths++
 			site := c24CrashSite(res)
-			class := strings.TrimSuffix(lc.Class, " (probe after it)")
-			rec.Violation("server-crash/"+site+"/"+c24QueryClass(class),
+			class := lc.Class
+			rec.Violation("server-crash/"+site+"/"+lc.Base,
 				fmt.Sprintf("the gRPC server process died while handling a well-formed %s request (class %s): %s", lc.Method, class, res.CrashClass()),
 				map[string]any{"method": lc.Method, "class": class, "request_protojson": lc.Request, "batch": lc.Batch, "index": lc.I,
 					"child_exit": res.Exit, "child_signal": res.Signal, "child_output": clip(res.Tail, 5000),
 					"replay": "send request_protojson (protojson of the request message) to " + lc.Method + " of a server built with grpc/defaults.NewServer + grpcserver.NewServer(search.NewDirectorySearcher(dir))"})
-			skip[lc.Method+"|"+class] = true
+			perBase[lc.Method+"|"+lc.Base]++
+			if !strings.HasPrefix(lc.Base, "valid-query") || perBase[lc.Method+"|"+lc.Base] >= 5 {
+				skip[lc.Method+"|"+lc.Base] = true
+			}
 			start = lc.I + 1
+			if deaths >= maxDeaths {
+				rec.Note("stopped_early", fmt.Sprintf("%d server deaths: remaining requests not sent (inconclusive tail)", deaths))
+				break
+			}
+		}
+		if deaths >= maxDeaths {
+			break
 		}
 	}
 	rec.Note("request_classes_skipped_after_first_server_death", skipList())
-}
-
-// c24QueryClass drops the options part of a request class ("Not-child-unset@And+opts-subset"
-// -> "Not-child-unset@And") unless the class is about the options themselves.
-func c24QueryClass(class string) string {
-	q, o, ok := strings.Cut(class, "+")
-	if !ok {
-		return class
-	}
-	if q == "valid-query" {
-		return q + "+" + o
-	}
-	return q
 }
 
 // c24CrashSite: the first zoekt frame below the panic, e.g. "query.QFromProto".
